@@ -15,8 +15,8 @@
 From Coq Require Import ZArith List Bool.
 From V Require Import Result LazyTree World WorldGuard WorldRun ForestDefs InvDefs WorldInv WorldProps.
 From V Require SetOpsProofs ModListProofs SymxProofs.
-From V Require Import SeqOps.
-From V Require SeqOpsProofs.
+From V Require Import SeqOps SetAlg.
+From V Require SeqOpsProofs SetAlgProofs AggregateProofs.
 From Coq Require Import Sorted.
 Import ListNotations.
 Open Scope Z_scope.
@@ -120,6 +120,56 @@ Proof.
   destruct (SetOpsProofs.oset_ixor_effect w known p fk a (reach_forest w known R) (reach_cache w known R) G) as (w' & E & _ & M).
   exists w'. exact (conj E M).
 Qed.
+
+(* ================= node sets: the non-mutating half of the set interface =================
+   the operators and comparisons SetWrapper inherits from collections.abc.Set (Model/SetAlg.v transcribes their bodies), applied to
+   the members of a collection of a reachable state and a duplicate-free operand, are the mathematical ones *)
+
+Theorem C16_set_operators : forall w known p fk other, reachable_k w known ->
+  let s := field w p fk in
+  (forall x, In x (abc_and s other) <-> In x s /\ In x other) /\
+  (forall x, In x (abc_or s other) <-> In x s \/ In x other) /\
+  (forall x, In x (abc_sub s other) <-> In x s /\ ~ In x other) /\
+  (forall x, In x (abc_rsub s other) <-> In x other /\ ~ In x s) /\
+  (forall x, In x (abc_xor s other) <-> (In x s /\ ~ In x other) \/ (In x other /\ ~ In x s)) /\
+  NoDup (abc_and s other) /\ NoDup (abc_or s other) /\ NoDup (abc_sub s other) /\ NoDup (abc_rsub s other) /\ NoDup (abc_xor s other).
+Proof.
+  intros w known p fk other R s.
+  destruct (SetAlgProofs.abc_results_are_sets s other) as (N1 & N2 & N3 & N4 & N5).
+  split; [intros x; apply SetAlgProofs.abc_and_spec|]. split; [intros x; apply SetAlgProofs.abc_or_spec|].
+  split; [intros x; apply SetAlgProofs.abc_sub_spec|]. split; [intros x; apply SetAlgProofs.abc_rsub_spec|].
+  split; [intros x; apply SetAlgProofs.abc_xor_spec|].
+  repeat split; assumption.
+Qed.
+
+(* <=, >=, <, >, ==, !=, isdisjoint: the length shortcuts of the mixins are sound because a collection never lists a node twice *)
+Theorem C16_set_comparisons : forall w known p fk other, reachable_k w known -> NoDup other ->
+  let s := field w p fk in
+  (abc_le s other = true <-> incl s other) /\
+  (abc_ge s other = true <-> incl other s) /\
+  (abc_lt s other = true <-> incl s other /\ ~ incl other s) /\
+  (abc_gt s other = true <-> incl other s /\ ~ incl s other) /\
+  (abc_eq s other = true <-> forall x, In x s <-> In x other) /\
+  (abc_ne s other = true <-> ~ forall x, In x s <-> In x other) /\
+  (abc_isdisjoint s other = true <-> forall x, In x s -> In x other -> False).
+Proof.
+  intros w known p fk other R No s.
+  assert (Ns : NoDup s) by exact (AggregateProofs.field_nodup w known (reach_forest w known R) p fk).
+  split; [exact (SetAlgProofs.abc_le_spec s other Ns)|].
+  split; [exact (SetAlgProofs.abc_ge_spec s other No)|].
+  split; [exact (SetAlgProofs.abc_lt_spec s other Ns No)|].
+  split; [exact (SetAlgProofs.abc_gt_spec s other Ns No)|].
+  split; [exact (SetAlgProofs.abc_eq_spec s other Ns No)|].
+  split; [exact (SetAlgProofs.abc_ne_spec s other Ns No)|].
+  exact (SetAlgProofs.abc_isdisjoint_spec s other).
+Qed.
+
+Example C16_set_algebra_example :
+  let s := [6; 7; 9] in let o := [7; 8] in
+  (abc_and s o, abc_or s o, abc_sub s o, abc_rsub s o, abc_xor s o) = ([7], [6; 7; 9; 8], [6; 9], [8], [6; 9; 8]) /\
+  (abc_le s o, abc_ge s [9; 6], abc_lt [7] o, abc_gt s s, abc_eq s [9; 7; 6], abc_ne s o, abc_isdisjoint s [8; 5]) =
+  (false, true, true, false, true, true, true).
+Proof. vm_compute. repeat split. Qed.
 
 (* ================= ir.modules: the mutable-sequence interface =================
    every effect is the list operation applied to the list from which a moved module was first removed *)
@@ -516,6 +566,9 @@ Print Assumptions C16_set_ior.
 Print Assumptions C16_set_iand.
 Print Assumptions C16_set_isub.
 Print Assumptions C16_set_ixor.
+Print Assumptions C16_set_operators.
+Print Assumptions C16_set_comparisons.
+Print Assumptions C16_set_algebra_example.
 Print Assumptions C16_modlist_append.
 Print Assumptions C16_modlist_insert.
 Print Assumptions C16_modlist_extend.
